@@ -291,15 +291,28 @@ class Program:
         if ctx_drop not in self.seed_n:
             return [self.arena_drop_walker()]
         reach = self.reachable_from([ctx_drop])
+        # functions that can only run on behalf of the context's destructor: every caller is the destructor or
+        # another such function (least fixpoint). A guard type shared with the sweep (its Drop releases the block on
+        # the unwinding path too) is NOT one of them - it stays an unanalysed helper below its callers.
+        only = {ctx_drop}
+        grew = True
+        while grew:
+            grew = False
+            for n in reach:
+                if n in only:
+                    continue
+                cs = {x.caller for x in self.callers_of(n)} - {n}
+                if cs and all(c in only for c in cs):
+                    only.add(n)
+                    grew = True
         out = set()
-        for e in self.callers_of("gc_ptr::GcPtr::dealloc"):
-            c = self.fn_of_closure(e.caller)
-            if c.startswith("<gc::GcBuilder ") or not (c in reach or c == ctx_drop):
-                continue
-            # not callable from anywhere but the context's destructor (and from itself / its own guards)
-            others = {x.caller for x in self.callers_of(c)} - {c, ctx_drop}
-            if all(o in reach for o in others):
-                out.add(c)
+        for tgt in ("gc_ptr::GcPtr::dealloc", "gc_ptr::GcPtr::drop_in_place"):
+            for e in self.callers_of(tgt):
+                c = self.fn_of_closure(e.caller)
+                if c.startswith("<gc::GcBuilder "):
+                    continue
+                if c in only or c == ctx_drop:
+                    out.add(c)
         return sorted(out) or [self.arena_drop_walker()]
 
     def collector_trace_impl(self):
